@@ -884,7 +884,13 @@ func (ctx Ctx) compositeLiteral(e *ast.CompositeLit) coq.Expr {
 				ctx.unsupported(e, "slice literal with elided type")
 				return nil
 			}
-			elemTy := ctx.coqType(e.Type).(coq.SliceType).Value
+			sliceTy, ok := ctx.coqType(e.Type).(coq.SliceType)
+			if !ok {
+				// e.g. Buf{} where Buf is a named slice type
+				ctx.unsupported(e, "empty slice literal of type %v", ctx.typeOf(e))
+				return nil
+			}
+			elemTy := sliceTy.Value
 			zeroLit := coq.IntLiteral{Value: 0}
 			return coq.NewCallExpr(coq.GallinaIdent("NewSlice"), elemTy, zeroLit)
 		}
